@@ -336,6 +336,8 @@ def generate(rng, index, tier):
     if rng.random() < 0.25 and files:
         plan['fault'] = {'kind': 'file_vanish', 'file': list(rng.choice(files)['path']),
                          'at': rng.choice(['getmtime', 'attributes']), 'nth': rng.choice([1, 1, 2, 3])}
+    if rng.random() < 0.3:
+        plan['hold'] = True        # the application keeps every result it was given
     return plan
 
 
@@ -423,6 +425,18 @@ def corpus(tier):
             if gc_step:
                 steps += [{'op': 'gc_now'}, {'op': 'query'}]
             out.append(_base(tree, [['p']], steps, ['song', 'one', 'mp3', 'c'], exec={'delay_ms': [5, 20]}))
+    # 5c. the application holds on to earlier results while files are touched / deleted / renamed and rescanned
+    tree2 = _files('m/song.mp3', 'm/long.mp3', 'm/s/tape.mp3')
+    for gc_step in (False, True):
+        steps = [{'op': 'scan_all', 'wait': True}, {'op': 'query'},
+                 {'op': 'touch', 'file': ['m', 'song.mp3'], 'mtime': BASE_MTIME + 77},
+                 {'op': 'delete', 'file': ['m', 'long.mp3']},
+                 {'op': 'rename', 'file': ['m', 's', 'tape.mp3'], 'to': ['m', 's', 'mixtape.mp3']},
+                 {'op': 'scan_all', 'wait': True}]
+        if gc_step:
+            steps.append({'op': 'gc_now'})
+        steps.append({'op': 'query'})
+        out.append(_base(tree2, [['m']], steps, ['song', 'long', 'tape', '*tape', 'mp3'], hold=True))
     # 6. file vanishes between listing and getmtime / attribute extraction
     for at in ('getmtime', 'attributes'):
         out.append(_base(tree, [['p']], [{'op': 'scan_all', 'wait': True}, {'op': 'query'}], ['song', 'mp3', '*ong'],
@@ -727,9 +741,15 @@ def _run(world: World, plan, restore):
                 world.violate('C07.stats', folders_ok=got[0] == want_stats[0], files_ok=got[1] == want_stats[1],
                               owner_mismatch=owner_mismatch, **facts_base)
 
+    held = []
+    world.keep_alive.append(held)
+
     def do_query(text, cap):
         settings.searches.receive.max_results = cap
         visible, locked = shares.query(text, username=USER, excluded_search_phrases=[])
+        if plan.get('hold'):
+            # the application keeps what it was given (a result list shown to the user, a reply still being sent)
+            held.extend(list(visible) + list(locked))
         out = sorted((item.get_absolute_path(), item.get_remote_path()) for item in list(visible) + list(locked))
         return out, len(visible), len(locked)
 
